@@ -391,6 +391,14 @@ func (vr *variableResolver) resolve(ctx *ExecutionContext) (*Value, error) {
 						if err != nil {
 							return nil, err
 						}
+						if !sv.IsNumber() {
+							// A subscript that is no number (nor the text of one) is no
+							// index: there is nothing at a['x'] - not the first element,
+							// which Integer() == 0 would pick.
+							if _, perr := strconv.ParseFloat(sv.String(), 64); !sv.IsString() || perr != nil {
+								return AsValue(nil), nil
+							}
+						}
 						si := sv.Integer()
 						if si >= 0 && current.Len() > si {
 							current = current.Index(si)
